@@ -344,6 +344,8 @@ RULES = {}
 ASSUME = {}
 TRUSTED_EXTRA = {}
 VARIANTS_OF = {
+    "C02": {"quick": ["default", "uchar"], "thorough": ["default", "uchar"]},
+    "C03": {"quick": ["default", "uchar"], "thorough": ["default", "uchar"]},
     "C04": {"quick": ["default", "underscore"], "thorough": ["default", "underscore"]},
     "C05": {"quick": ["default", "be:idnkit"], "thorough": ["default", "be:idnkit"]},
     "C09": {"quick": ["default", "ndebug"], "thorough": ["default", "ndebug"]},
@@ -406,6 +408,20 @@ def c02(ctx):
             for s, cl, sl in zip(lsub, ce, spl):
                 if (fields(cl)[1] == "0") != (sl == "sL 1"):
                     ctx.S("mode %d: an address is decided against the grammar of its local part (domain %s)" % (m, dom.decode()), op="E %d 0 %s" % (m, hx(s + b"@" + dom)), input=repr(s), impl=cl, spec=sl)
+    # the 64-octet seam through the API: a local part of exactly the maximum length whose LAST octet (or closing quote) decides
+    seam = []
+    for b_ in range(1, 256):
+        if b_ != 0x40:
+            seam += [b"a" * 63 + bytes([b_]), b"a." * 31 + b"a" + bytes([b_]), b'"' + b"a" * 62 + bytes([b_])]
+    seam += [b'"' + b"a" * 62 + b'"', b'"' + b"a" * 61 + b'"', b'"' + b"a" * 63 + b'"', b'"' + b"a" * 60 + b'\\""', b'"' + b"a" * 61 + b'\\"', b'"' + b"a" * 60 + b'\\a"',
+             b"a" * 62 + b".a", b"a" * 63 + b".", b"a" * 62 + b"..", b"a" * 64, b"a" * 65, b"a" * 63, b'"a"' + b".a" * 30 + b".", b'"a"' + b".a" * 30 + b'."']
+    for m in (822, 5321, 5322):
+        spl = ctx.spec(["sL %d %s" % (m, hx(s)) for s in seam])
+        for dom in (b"b.com", b"[192.0.2.1]"):
+            ce = ctx.K("local-seam%d" % m, "default", ["E %d 0 %s" % (m, hx(s + b"@" + dom)) for s in seam], nontrivial=lambda op, ln: True)
+            for s, cl, sl in zip(seam, ce, spl):
+                if (fields(cl)[1] == "0") != (sl == "sL 1" and len(s) <= 64):
+                    ctx.S("mode %d: an address with a %d-octet local part is decided against the grammar of that local part" % (m, len(s)), op="E %d 0 %s" % (m, hx(s + b"@" + dom)), input=repr(s), impl=cl, spec=sl)
     # an application may have called setlocale(): the verdicts must not follow the process locale
     hb = [s for s in strs if 0 not in s and any(b >= 0x80 or b < 0x20 for b in s)][:: (6 if ctx.tier == "quick" else 1)] + \
          [b"caf\xe9", b'"caf\xe9"', b'"a\\\xe9"', b"a\x85b", b'"\x9f"', b"\xe9", b"a.\xe9.b"] + [bytes([b]) + b"a" for b in range(0x80, 0x100)]
@@ -416,6 +432,17 @@ def c02(ctx):
             for s, cl, sl in zip(hb, cl_, spl):
                 if (cl == "L 0") != (sl == "sL 1"):
                     ctx.S("mode %d local part decided against the grammar when the process locale is %s" % (m, loc["VERIF_LOCALE"]), op="L %d %s %s" % (m, hx(s), hx(gen.AT)), input=repr(s), impl=cl, spec=sl, locale=loc["VERIF_LOCALE"])
+    # plain `char` is unsigned on arm / ppc / s390: the same library source built with -funsigned-char decides the same
+    for m in (822, 5321, 5322):
+        cl_ = ctx.K("local%d@unsigned-char" % m, "uchar", ["L %d %s %s" % (m, hx(s), hx(gen.AT)) for s in hb], project=lambda op, ln: accept_bit(ln))
+        spl = ctx.spec(["sL %d %s" % (m, hx(s)) for s in hb])
+        for s, cl, sl in zip(hb, cl_, spl):
+            if (cl == "L 0") != (sl == "sL 1"):
+                ctx.S("mode %d local part decided against the grammar when the library is built with unsigned plain char (-funsigned-char)" % m, op="L %d %s %s" % (m, hx(s), hx(gen.AT)), variant="uchar", input=repr(s), impl=cl, spec=sl)
+        ce = ctx.K("local-api%d@unsigned-char" % m, "uchar", ["E %d 0 %s" % (m, hx(s + b"@b.com")) for s in hb if b"@" not in s], nontrivial=lambda op, ln: True)
+        for s, cl, sl in zip([s for s in hb if b"@" not in s], ce, [x for s_, x in zip(hb, spl) if b"@" not in s_]):
+            if (fields(cl)[1] == "0") != (sl == "sL 1" and 1 <= len(s) <= 64):
+                ctx.S("mode %d: address decided against the grammar of its local part when built with -funsigned-char" % m, op="E %d 0 %s" % (m, hx(s + b"@b.com")), variant="uchar", input=repr(s), impl=cl, spec=sl)
     # the byte at *end may be read by the 822 folding test: the decision must not depend on it
     fold = [s for s in strs if b"\r\n" in s][:3000]
     for endb in (b" \0", b"\t\0", b"\0"):
@@ -452,6 +479,20 @@ def c03(ctx):
         want = spd[s] == "sL 1" and 1 <= len(s) <= 64
         if (fields(cl)[1] == "0") != want:
             ctx.S("is_6531_email decides L@b.com against strict UTF-8 + the RFC 5321 grammar for L", op="E 6531 0 %s" % hx(s + b"@b.com"), input=repr(s), impl=cl, spec=spd[s])
+    # ... and in front of an address literal just the same (the domain kind must not select another local-part grammar)
+    lsub = [s for s in sub if any(b >= 0x80 for b in s)][:: (4 if ctx.tier == "quick" else 1)] + [s for s in sub if all(b < 0x80 for b in s)][:: (40 if ctx.tier == "quick" else 4)]
+    for dom in (b"[192.0.2.1]", b"[IPv6:2001:db8::1]"):
+        ce = ctx.K("email6531-literal", "default", ["E 6531 0 %s" % hx(s + b"@" + dom) for s in lsub], nontrivial=lambda op, ln: True)
+        for s, cl in zip(lsub, ce):
+            want = spd[s] == "sL 1" and 1 <= len(s) <= 64
+            if (fields(cl)[1] == "0") != want:
+                ctx.S("is_6531_email decides L@%s against strict UTF-8 + the RFC 5321 grammar for L" % dom.decode(), op="E 6531 0 %s" % hx(s + b"@" + dom), input=repr(s), impl=cl, spec=spd[s])
+    # unsigned plain char (arm / ppc / s390 ABI): same decisions
+    hb6 = [s for s in strs if 0 not in s and any(b >= 0x80 for b in s)][:: (5 if ctx.tier == "quick" else 1)]
+    cu = ctx.K("local6531@unsigned-char", "uchar", ["L 6531 %s %s" % (hx(s), hx(gen.AT)) for s in hb6], project=lambda op, ln: accept_bit(ln))
+    for s, cl in zip(hb6, cu):
+        if (cl == "L 0") != (spd[s] == "sL 1"):
+            ctx.S("mode 6531 local part decided against strict UTF-8 + grammar when built with -funsigned-char", op="L 6531 %s %s" % (hx(s), hx(gen.AT)), variant="uchar", input=repr(s), impl=cl, spec=spd[s])
     # non-ASCII local parts through the API after every kind of (re-)configuration: mode 6531 stays mode 6531
     ua = [hx(x) for x in ("a.ü.b@example.com".encode(), "ящик@b.com".encode(), b"a@b.com")]
     hs = []
